@@ -6,6 +6,7 @@ import (
 	"net"
 	"runtime"
 	"strings"
+	"sync"
 	"sync/atomic"
 	"time"
 
@@ -393,6 +394,32 @@ func (p *player) step(s ScStep) {
 				p.rec.Put(M{"e": "Note", "what": "feed to unknown peer"})
 			}
 		}
+	case "burst":
+		per := map[int][][]byte{}
+		for _, bi := range s.Items {
+			b := p.itemBytes(bi.Item)
+			p.rec.Put(M{"e": "Feed", "ep": bi.Ep, "peer": 0, "kind": bi.Item.Kind, "tag": bi.Item.Tag, "n": len(b),
+				"sys": bi.Item.Sys, "comp": bi.Item.Comp, "autopilot": bi.Item.Autopilot, "t": p.ms()})
+			per[bi.Ep] = append(per[bi.Ep], b)
+		}
+		var wg sync.WaitGroup
+		start := make(chan struct{})
+		for ep, chunks := range per {
+			ctl := p.ctl(ep)
+			if ctl == nil {
+				continue
+			}
+			wg.Add(1)
+			go func(ctl *ctlRWC, chunks [][]byte) {
+				defer wg.Done()
+				<-start
+				for _, c := range chunks {
+					ctl.feed([][]byte{c})
+				}
+			}(ctl, chunks)
+		}
+		close(start)
+		wg.Wait()
 	case "read_err":
 		p.rec.Put(M{"e": "ReadErr", "ep": s.Ep, "peer": s.Peer, "t": p.ms()})
 		if ctl := p.ctl(s.Ep); ctl != nil {
